@@ -1,4 +1,54 @@
 import TransportVerif.Model.Xor
+import TransportVerif.Proofs.Xor
+/-
+C20 — XorBytes equals bytewise XOR over the common prefix for all lengths and overlaps.
+The statements below are FIXED; only the proofs may change.
+-/
 namespace TV.Props.C20
-theorem placeholder : True := trivial
+open TV.Xor
+
+/-- The word-wise implementation of xor_old.go meets the contract for all lengths and contents of
+    the three slices and for the aliasing patterns none, dst == a, dst == b. -/
+theorem xor_old_correct (m : Mem) (h : m.Wf) : xorBytesOld m = contract m := by
+  exact TV.Proofs.Xor.xor_old_correct m h
+
+/-- what the contract says, spelled out pointwise: the return value … -/
+theorem contract_n (m m' : Mem) (n : Nat) (h : contract m = some (m', n)) :
+    n = min m.a.length m.b.length := by
+  exact (TV.Proofs.Xor.contract_some h).1
+
+/-- … the XORed prefix … -/
+theorem contract_prefix (m m' : Mem) (n : Nat) (h : contract m = some (m', n)) (i : Nat) (hi : i < n) :
+    m'.dst[i]? = some (m.a.getD i 0 ^^^ m.b.getD i 0) := by
+  obtain ⟨hn, _, hd, _, _⟩ := TV.Proofs.Xor.contract_some h
+  rw [hd, TV.Proofs.Xor.contractDst_getElem? _ _ _ n hn, if_pos hi]
+
+/-- … every other byte of dst unchanged, dst keeps its length … -/
+theorem contract_frame_dst (m m' : Mem) (n : Nat) (h : contract m = some (m', n)) :
+    m'.dst.length = m.dst.length ∧ ∀ i, n ≤ i → m'.dst[i]? = m.dst[i]? := by
+  obtain ⟨hn, hl, hd, _, _⟩ := TV.Proofs.Xor.contract_some h
+  refine ⟨?_, ?_⟩
+  · rw [hd]
+    simp only [List.length_append, List.length_zipWith, List.length_take, List.length_drop]
+    omega
+  · intro i hi
+    rw [hd, TV.Proofs.Xor.contractDst_getElem? _ _ _ n hn, if_neg (by omega)]
+
+/-- … and a, b unchanged unless they are dst itself. -/
+theorem contract_frame_ab (m m' : Mem) (n : Nat) (h : contract m = some (m', n)) :
+    (m.alias ≠ .dstA → m'.a = m.a) ∧ (m.alias ≠ .dstB → m'.b = m.b) ∧
+    (m.alias = .dstA → m'.a = m'.dst) ∧ (m.alias = .dstB → m'.b = m'.dst) := by
+  obtain ⟨_, _, _, ha, hb⟩ := TV.Proofs.Xor.contract_some h
+  refine ⟨?_, ?_, ?_, ?_⟩
+  · intro hA; rw [ha, if_neg hA]
+  · intro hB; rw [hb, if_neg hB]
+  · intro hA; rw [ha, if_pos hA]
+  · intro hB; rw [hb, if_pos hB]
+
+-- non-vacuity: unequal lengths, dst == a, a word and a tail
+example : xorBytesOld { dst := [1,2,3,4,5,6,7,8,9,10,11], a := [1,2,3,4,5,6,7,8,9,10,11],
+                        b := [255,255,255,255,255,255,255,255,255,255], alias := .dstA }
+    = some ({ dst := [254,253,252,251,250,249,248,247,246,245,11], a := [254,253,252,251,250,249,248,247,246,245,11],
+              b := [255,255,255,255,255,255,255,255,255,255], alias := .dstA }, 10) := by decide
+
 end TV.Props.C20
